@@ -307,6 +307,9 @@ def run(ctx):
         # first run (the same command must find the same database the second time)
         opts['relative_paths'] = (plan == 1 or rng.random() < 0.2) and not opts['database_uri']
         opts['same_pid'] = plan == 0 or rng.random() < 0.2
+        # -k: the table also holds the queue of saved files; the pipeline that converts them runs after the downloads,
+        # so the commits of the last stretch of the run (kill points like all others) fall into it
+        opts['convert_links'] = plan == 3 or rng.random() < 0.2
         leaves = [p for p, d in site.pages.items() if d['kind'] == 'leaf']
         if leaves and (plan == 1 or rng.random() < 0.25):
             site.pages[rng.choice(leaves)] = {'kind': 'flaky'}
